@@ -1315,7 +1315,7 @@ def _enclosing_comprehensions(pm, node, stop):
     return list(reversed(out))
 
 
-@R.rule("C05-R5", floor=31, template="T-FLOW (provenance of the type argument)",
+@R.rule("C05-R5", floor=25, template="T-FLOW (provenance of the type argument)",
         desc="the type handed to the literal renderer is the parameter's own type, the one whose bind processor "
              "processes the bound form: in every compiler class, the type argument of render_literal_value() (and the "
              "receiver of a literal-processor lookup) is never computed through an accessor that strips a "
